@@ -34,7 +34,10 @@ def run(tier):
     ck._distinct.update(("e%d" % i).encode() for i in range(nfiles))
     if lines:
         ev = json.loads(lines[len(lines) // 3])
-        ck.sample({"case": ev.get("case"), "how": ev.get("how"), "ops": ev.get("ops"), "tables": {k: ev["f"][k] for k in ("nblocks", "types", "tidx", "sizes", "hdrLen", "len", "end", "footer")}})
+        try:
+            ck.sample({"case": ev.get("case"), "how": ev.get("how"), "ops": ev.get("ops"), "tables": {k: ev["f"][k] for k in ("nblocks", "types", "tidx", "sizes", "hdrLen", "len", "end", "footer")}})
+        except (KeyError, IndexError, TypeError):
+            pass     # (the first record is a crash record: nothing to sample)
     # files of the round-trip machine
     tr = os.path.join(wd, "samples.ndjson")
     rc, out, err = vlib.run_harness(exe, ["c01-samples", tr, "2" if tier == "quick" else "12"], timeout=6000)
